@@ -122,7 +122,7 @@ CHECKS = {
     "C10": dict(
         text=("Theorems (Coq, every package tree, facts set and configuration): Go's partial operations that the analyzers perform are explicit outcomes of the model and are never taken - "
               "token.File.LineStart in the @ignore reader is only asked for the physical line of a position at or after the file's first line start (input condition x_lines_ok, evaluated on "
-              "every serialised package), so the per-package analysis always returns a normal result; the suppression look-up never indexes outside the marker list; the excerpt renderer never "
+              "every serialised package), so the per-package analysis always returns a normal result; the suppression look-up never indexes outside the marker list - for every analysed package, since the IgnoreSet operations its own @ignore comments give rise to start at positions >= 1 (derived from the checked input condition x_pos_ok); the excerpt renderer never "
               "slices out of range for any content, line, column (0 and negative included), code and message; termination is structural (fuelled regex loops). PARTIAL: panics inside go/types, "
               "x/tools or the runtime and panic sites the model does not mirror are reachable only by the runs: outcome correspondence (ok/crash/timeout/exit status/analyzer error) of "
               "multichecker -json and text under two configurations and of go vet -vettool on guard-targeted worlds (aliases and blank type names, grouped/generic/local declarations, unnamed "
@@ -147,7 +147,7 @@ CHECKS = {
         text=("Theorems (Coq, every package tree, facts, suppression function and exclusion list): with a project-wide exclusion the suppression decision is 'excluded or suppressed as before' "
               "(from the C16 history theorem); each checker's output under it equals the FILTER of its unrestricted output — for report-time filtering (IMM, CTOR) and for detection-time "
               "filtering before the once-per-file dedup (TONL01, PKGO01: proved via 'all keyed candidates carry one code'); excluded iff the list holds ALL, the category or the code; ALL excludes "
-              "everything, other tokens nothing; the configuration reaches the analysis only as that global suppression. Tied to the code by runs of the real binary under every single token, "
+              "everything, other tokens nothing; the configuration reaches the analysis only as that global suppression; END TO END (C08_whole_analysis): the whole per-package analysis under exclude-checks = S is the analysis without it with exactly the matched diagnostics filtered out - same exported annotations, same order, failure exactly where the unrestricted run fails. Tied to the code by runs of the real binary under every single token, "
               "category pairs, random subsets in any case/spacing by flag and env, each compared with the filtered unrestricted run and with the model."),
         note="ASCII tokens. IMPL codes are compared with the model like the others (the @implements model is part of x_analyze) and metamorphically against the filtered baseline.",
         technique="Coq proof (exclusion commutes with both filtering disciplines) + metamorphic and model correspondence through the real binary"),
@@ -174,7 +174,7 @@ CHECKS = {
               "that key is unsuppressed and an unkeyed candidate iff it is unsuppressed - functions of the candidate SET, not of its order; candidates are contributed declaration by declaration. "
               "Positions are opaque to the four AST checkers: relabelling every position of the files by ANY function relabels the diagnostics (same codes, same messages, the same "
               "uses reported for the once-per-file codes) and changes nothing else, given that suppression answers alike at relabelled positions - blank lines, ordinary comments and "
-              "gofmt are such relabellings. That @ignore scopes follow a monotone relabelling, and local renaming, are covered by the correspondence: one IR rendered 8 ways (permute, move, swap files, blank+comments, gofmt, rename, all composed) through "
+              "gofmt are such relabellings. END TO END (C12_whole_analysis_relayout): for ANY strictly monotone map of positions that sends line starts to line starts (re-indentation, alignment, tabs/blanks, CRLF/LF, another FileSet base) the whole analysis - annotation reader, @ignore reader and its scopes, IgnoreSet, @implements, the four checkers - returns the same annotations and diagnostics at the relabelled positions, no side condition on suppression. Layout changes that add or remove lines, and local renaming, are covered by the correspondence: one IR rendered 8 ways (permute, move, swap files, blank+comments, gofmt, rename, all composed) through "
               "the real binary, compared by site id / (package,type), each rendering also against the model."),
         note="The theorems cover reordering, moving and position relabelling (checker side); the @ignore reader under relabelling and renaming invariance are exercised, not proved (DESIGN 5, C12).",
         technique="Coq proof (permutation invariance, order-independence of the dedup) + metamorphic correspondence through the real binary"),
